@@ -21,6 +21,7 @@ fn once(case: &Value, run: &Run) -> Acc {
         "schedule" => crate::checks::purity::replay_schedule(case, run),
         "history" => crate::checks::purity::replay_history(case, run),
         "free-running" => crate::checks::purity::replay_free_running(case, run),
+        "cold-warm" => crate::checks::purity::replay_cold_warm(case, run),
         "kept-query" => crate::checks::purity::replay_kept_query(case, run),
         "update-history" => crate::checks::purity::replay_update_history(case, run),
         "static" => crate::checks::purity::replay_static(case, run),
